@@ -10,8 +10,8 @@ TITLE = "CUR and PCov-CUR select by leverage score on the orthogonalised residua
 TECHNIQUE = 'Hypothesis PBT against dense SVD/eigh leverage scores on an independent projection residual; scores used are recorded by a wrapper; gap-aware'
 LEVEL = 'Generated-input exploration: each selection maximises the independently computed importance score as of the last refresh, recorded scores equal the oracle, exposed residual equals the projection and is orthogonal to selected items, duality and mixing=1 relations. No absence claim: strength = the counted distinct non-trivial cases in the evidence.'
 BUDGET = {"quick": 1200, "thorough": 12000}
-RULE = ("Cases: CUR / PCovCUR x {feature, sample}; X kinds generic, eighths (near ties), lowrank, dup with a global scale in "
-        "{.1,1,10}, 4..13 x 4..10 (thorough: to 40 x 24); numerical rank r is measured and the number of selections is drawn in "
+RULE = ("Cases: CUR / PCovCUR x {feature, sample}; X kinds generic, eighths (near ties), lowrank, dup and nearly low-rank (rank-r part + 1e-5 full-rank part) with a global scale in "
+        "{1e-7,1e-3,.1,1,10} (1e3 only with tolerance 1e-8), 4..13 x 4..10 (thorough: to 40 x 24); numerical rank r is measured and the number of selections is drawn in "
         "[1, r-k]; y 1-D; k in 1..3 (k < min shape); mixing {0,.2,.5,.8,1}; recompute_every {0,1,2,3}; tolerance {1e-12,1e-8}.  "
         "Oracle: residual by an independent QR projection, unexplained y by lstsq, importance score from dense SVD / eigh at the "
         "most recent refresh point; the score actually used at each step is recorded by a harness-side wrapper of score().  A step "
@@ -28,8 +28,23 @@ def strategy_(draw, tier):
     big = tier == "thorough"
     n = draw(st.integers(4, 40 if big else 13))
     m = draw(st.integers(4, 24 if big else 10))
-    kind = draw(st.sampled_from(["generic", "generic", "eighths", "lowrank", "dup"]))
-    X = gen.matrix(draw, n, m, kind) * draw(st.sampled_from([1.0, 1.0, 10.0, 0.1]))
+    kind = draw(st.sampled_from(["generic", "generic", "eighths", "lowrank", "dup", "nearlowrank"]))
+    if kind == "nearlowrank":
+        r0 = draw(st.integers(1, max(1, min(n, m) - 2)))
+        X0 = gen.normal(draw, (n, r0)) @ gen.normal(draw, (r0, m)) + 1e-5 * gen.normal(draw, (n, m))
+    else:
+        X0 = None
+    # the documented `tolerance` treats items whose residual norm is below it as zero: keep the data scale well above it
+    tolerance = draw(st.sampled_from([1e-12, 1e-12, 1e-8]))
+    if tolerance == 1e-8:
+        scale = draw(st.sampled_from([1.0, 10.0, 0.1, 1e3]))
+    elif X0 is not None:
+        scale = draw(st.sampled_from([1e-3, 1.0, 10.0]))
+    else:
+        # with the default absolute tolerance 1e-12 the rounding noise of the data (~1e-16 x scale) must stay below it,
+        # otherwise a dependent item picked through a stale score is "orthogonalised" against noise
+        scale = draw(st.sampled_from([1.0, 1.0, 10.0, 0.1, 1e-3, 1e-7]))
+    X = (X0 if X0 is not None else gen.matrix(draw, n, m, kind)) * scale
     cls = draw(st.sampled_from(["CUR", "PCovCUR"]))
     direction = draw(st.sampled_from(["feature", "sample"]))
     k = draw(st.integers(1, min(3, min(n, m) - 1)))
@@ -37,7 +52,7 @@ def strategy_(draw, tier):
     hi = max(1, r - k)
     nsel = draw(st.integers(max(1, hi // 2) if draw(st.booleans()) else 1, hi))
     params = {"k": k, "recompute_every": draw(st.sampled_from([1, 1, 0, 2, 3])),
-              "tolerance": draw(st.sampled_from([1e-12, 1e-12, 1e-8]))}
+              "tolerance": tolerance}
     if cls == "PCovCUR":
         params["mixing"] = draw(st.sampled_from([0.0, 0.2, 0.5, 0.8, 1.0]))
     y = S.draw_y(draw, n, X)
@@ -103,6 +118,13 @@ def oracle_pi(case, sel_idx):
     X, y = case["X"], case["y"].reshape(-1, 1)
     axis = 0 if case["direction"] == "sample" else 1
     k = case["params"]["k"]
+    if sel_idx:
+        # nearly dependent selected items: neither the projection nor the least-squares fit of y is determined
+        # (the library cuts at its `tolerance`, 1e-12 or 1e-8, relative to the largest singular value)
+        A_sel = X[:, sel_idx] if axis == 1 else X[sel_idx].T
+        sv = np.linalg.svd(A_sel, compute_uv=False)
+        if sv[0] > 0 and np.any((sv / sv[0] > 1e-14) & (sv / sv[0] < 1e-6)):
+            return None, 0.0
     Xr = proj_out(X, sel_idx, axis)
     if case["cls"] == "CUR":
         return pi_cur(Xr, axis, k)
@@ -179,8 +201,18 @@ def check(case, ctx):
         ctx.nontrivial = True
     sc = float(np.abs(X).max())
     if prm["recompute_every"] != 0:
+        # conditioning of the selected set: a singular value between "clearly independent" and "exactly dependent"
+        # makes the projection itself ill-defined in floating point
+        A_sel = X[:, idx] if axis == 1 else X[idx].T
+        sv = np.linalg.svd(A_sel, compute_uv=False)
+        ratios = sv / sv[0] if sv[0] > 0 else np.ones_like(sv)
+        grey = bool(np.any((ratios > 1e-14) & (ratios < 1e-6)))
+    if prm["recompute_every"] != 0 and grey:
+        ctx.skip("residual: selected items nearly dependent (singular ratio in (1e-14,1e-6))")
+    elif prm["recompute_every"] != 0:
+        rmin = float(ratios[ratios >= 1e-6].min())
         Xr = proj_out(X, idx, axis)
-        ctx.close("residual==projection", sel.X_current_, Xr, 1e-8 * sc, "X_current_ vs independent projection residual")
+        ctx.close("residual==projection", sel.X_current_, Xr, sc * (1e-8 + 1e-14 / rmin), "X_current_ vs independent projection residual")
         part = sel.X_current_[:, idx] if axis == 1 else sel.X_current_[idx]
         ctx.close("residual-zero-on-selected", part, np.zeros_like(part), 1e-8 * sc, "residual on the selected items")
         # orthogonality to every selected item
